@@ -44,7 +44,11 @@ HARNESSES = [
          fp={"read_at": "stub_read_at", "do_block": "stub_do_block",
              "destroy": ["di_obj_destroy", "it_destroy"], "copy": "di_obj_copy",
              "open_subdir": "it_open_subdir"},
-         cases=[dict(id="chain%d_order%d" % (c, o), defines={"CHAIN": c, "ORDER": o}, tier="quick",
+         # chain2_order1 needs > 5 min since the entry/directory inode numbers of
+         # the shared stubs (dir_iter.c) are symbolic: thorough tier only
+         cases=[dict(id="chain%d_order%d" % (c, o), defines={"CHAIN": c, "ORDER": o},
+                     tier="thorough" if (c, o) == (2, 1) else "quick",
+                     timeout=300 if (c, o) != (2, 1) else 2400,
                      unwind=c + 6)
                 for c in (0, 1, 2) for o in (0, 1)]),
     # all 14 inode types: 12 here (ext. directory with 0..2 index entries) ...
